@@ -18,7 +18,8 @@ from ..shims import import_dclab
 PID = "C08"
 CFG = ("INIT Init\nNEXT Next\nCONSTRAINT Emit\nINVARIANT "
        "EveryRoutePreserves\nCHECK_DEADLOCK FALSE\n")
-LOG_LINES = ["short line", "x" * 130, "µm² – ünïcödé ✓", "last"]
+LOG_LINES = ["short line", "x" * 130, "µm² – ünïcödé ✓",
+             "°C " + "µ" * 68 + " (more bytes than characters)", "last"]
 
 
 def layout(d, n, item_shape=()):
